@@ -120,7 +120,7 @@ def strand_token(h, d):
     if m == 'N/A':
         return 'N/A'
     if m not in ('consistent', 'contradict', 'word', 'sign'):
-        return m                          # literal token
+        return m if (m or d != 'infernal') else '-'      # literal token (an Infernal cell is never empty)
     minus = natural_minus(h)
     if m == 'contradict':
         minus = not minus
@@ -155,7 +155,7 @@ def extra_token(h, d, col, t, nosp):
 
 def token(h, d, col, nosp=False):
     if col == 'sstrand' and d in ('blast', 'infernal'):
-        return strand_token(h, d)
+        return strand_token(h, d) or ('x' if nosp else '')
     ov = h.get('x', {}).get(col)
     if ov is not None and CORE[d].get(col) not in ('q', 's', 'qs', 'qe', 'ss', 'se', 'ev', 'bs'):
         return ov
@@ -237,7 +237,7 @@ def render(case):
         sep = ',' if style == '10' else '\t'
         kw['sep'] = None if sepnone else sep
         if colmode in ('outfmt', 'header+outfmt'):
-            kw['outfmt'] = ' '.join(cols)
+            kw['outfmt'] = case.get('ofpad', '') + case.get('ofsep', ' ').join(cols) + case.get('ofpad', '')
         for b, bhits in enumerate(blocks):
             bc = cols if ('outfmt' in colmode or not case.get('blkcols')) else (blkcols[b] or DEFAULT[d])
             announced = blkcols[b] if case.get('blkcols') else cols      # None = a block without a header line
@@ -246,7 +246,7 @@ def render(case):
                           '# Database: User specified sequence set (Input: x.fasta)']
                 if colmode in ('header', 'header+outfmt') and announced is not None:
                     hc = list(reversed(announced)) if (case.get('hdrperm') and colmode == 'header+outfmt') else announced
-                    lines.append('# Fields: ' + ', '.join(BL_LONG.get(c, c) for c in hc))
+                    lines.append('# Fields:' + case.get('fpad', ' ') + case.get('fsep', ', ').join(BL_LONG.get(c, c) for c in hc))
                 lines.append('# %d hits found' % len(bhits))
             if d == 'mmseqs' and style == '4' and announced is not None:
                 hc = list(reversed(announced)) if (case.get('hdrperm') and colmode == 'header+outfmt') else announced
@@ -297,7 +297,7 @@ def rand_hit(rng, big=False):
     elif r < 0.93:
         h['sstr'] = 'sign'
     else:
-        h['sstr'] = rng.choice(['.', '?', '+', '-', 'plus', 'minus', 'x'])
+        h['sstr'] = rng.choice(['.', '?', '+', '-', 'plus', 'minus', 'x', ''])
     return h
 
 
@@ -354,6 +354,12 @@ def rand_case(rng):
     if d == 'blast' and case.get('cols') and 'sstrand' not in case['cols'] and rng.random() < 0.5:
         case['cols'].insert(rng.randint(0, len(case['cols'])), 'sstrand')
     blank_fields(rng, case)
+    if 'outfmt' in case['_colmode'] and rng.random() < 0.3:
+        case['ofsep'] = rng.choice(['  ', '\t', ' \n', '\x0b', ' \t '])         # outfmt.split(): any run of blanks
+        case['ofpad'] = rng.choice(['', ' ', '\n'])
+    if case['_colmode'].startswith('header') and d == 'blast' and rng.random() < 0.3:
+        case['fsep'] = rng.choice([',', ' , ', ',  ', ',\t'])                    # '# Fields:' cells are stripped
+        case['fpad'] = rng.choice(['', ' ', '   ', '\t'])
     if rng.random() < 0.12:
         set_encoding(rng, case)
     return case
@@ -491,9 +497,9 @@ def directed_cases():
     coords = [(10, 20), (20, 10), (10, 10), (1, 2), (2, 1), (1, 1)]
     for (ss, se) in coords:
         for (qs, qe) in coords[:3]:
-            for sstr in ('consistent', 'contradict', 'N/A', 'sign', None):
+            for sstr in ('consistent', 'contradict', 'N/A', 'sign', '', None):
                 h = dict(base, ss=ss, se=se, qs=qs, qe=qe)
-                if sstr:
+                if sstr is not None:
                     h['sstr'] = sstr
                 for d, style, colmode, cols in (
                         ('blast', '6', 'default', None), ('blast', '7', 'header', None), ('blast', '10', 'default', None),
@@ -507,7 +513,9 @@ def directed_cases():
                         continue
                     if sstr is not None and not (cols and 'sstrand' in cols or d == 'infernal'):
                         continue
-                    if sstr == 'N/A' and d == 'infernal':
+                    if sstr in ('N/A', '') and d == 'infernal':
+                        continue
+                    if sstr == '' and cols and cols[-1] == 'sstrand':
                         continue
                     c = {'_d': d, '_style': style, '_colmode': colmode, 'hits': [h], '_via': 'stringio'}
                     if cols:
@@ -840,25 +848,47 @@ def _is_float(t):
         return False
 
 
-LINE_POOL = ['#', '# comment', '#--- ---', '', '   ', '\t', '# Fields: query id, subject id', '# Fields: s. start, s. end, q. start, q. end',
-             'query\ttarget', 'qstart\tqend\ttstart\ttend', 'x', 'a\tb', ' # not a comment', '--', 'q\ts\t1\t2', '1\t2\t3\t4']
+HARMLESS = ['#', '# comment', '#--- ---', '', '   ', '\t', '#query\ttarget', '#\t# Fields: x', '# BLASTN 2.15.0+', '#target name', '\x0c', ' \t ']
+FIELDS = ['# Fields: query id, subject id', '# Fields: s. start, s. end, q. start, q. end', '# Fields:']
+NAMES = ['query\ttarget', 'qstart\tqend\ttstart\ttend', ' query\ttarget ', 'evalue\tbits\t', 'query,target', 'query target']
+JUNK = ['query', 'evalue', 'target', 'qseqid', 'x', 'a\tb', ' # not a comment', '\t# neither', '--', 'q\ts\t1\t2', '1\t2\t3\t4', 'query\ttarget\tx',
+        '#--', ' #--- --- ']
 
 
 def anytext_cases(rng, n):
-    """any list of lines: data rows, comment lines, blank lines, MMseqs2 name rows, '# Fields:' lines, rulers and junk in
-    any order, read with outfmt= (columns known) or without; decided by the model comparison (raw cases)"""
+    """any list of lines: data rows between comment lines, blank lines, MMseqs2 name rows, '# Fields:' lines and rulers in any
+    order, blanks before and after lines, read with outfmt= (columns known) or without; most texts hold only lines the
+    reader has to skip (so that every row is reached), some hold ONE line that is no row, no comment and no header (a single
+    column name, an indented '#', a short row) at a random place; decided by the model comparison (raw cases)"""
     out = []
     for i in range(n):
         d = rng.choice(['blast', 'mmseqs', 'infernal'])
         base = rand_case(rng)
-        while base['_d'] != d or base.get('enc'):
+        while base['_d'] != d or base.get('enc') or any(h.get('sstr') == 'contradict' for h in base['hits']):
             base = rand_case(rng)
         content, kw = render(base)
         ls = content.split('\n')
+        pool = list(HARMLESS)
+        if d != 'blast' or kw.get('outfmt') is not None:
+            pool += FIELDS                       # only BLAST without outfmt= looks at them
+        if d == 'mmseqs' and (kw.get('outfmt') is not None or base['_style'] == '4'):
+            pool += NAMES                        # name rows after the columns are known are skipped
         for _ in range(rng.choice([1, 2, 4, 8])):
-            ls.insert(rng.randrange(len(ls) + 1), rng.choice(LINE_POOL) if rng.random() < 0.7 else rng.choice(ls))
-        if rng.random() < 0.3:
+            # not before the first line: that is where header discovery of a headed file happens
+            ls.insert(rng.randrange(1 if pool is not HARMLESS else 0, len(ls) + 1), rng.choice(pool) if rng.random() < 0.8 else rng.choice([l for l in ls if l[:1] == '#'] or ['#']))
+        r = rng.random()
+        if r < 0.15:
+            ls.insert(rng.randrange(len(ls) + 1), rng.choice(JUNK + NAMES + FIELDS))
+        elif r < 0.35:
+            # a line on the boundary between the kinds of lines: one column name (a name row has at least two), an indented '#'
+            edge = ['query', 'evalue', 'bits', ' target ', 'qstart\t'] if d == 'mmseqs' else []
+            ls.insert(rng.randrange(len(ls) + 1), rng.choice(edge + [' # not a comment', '\t# neither', ' #', '\x0c# ff']))
+        elif r < 0.42:
             rng.shuffle(ls)
+        if rng.random() < 0.5:                      # blanks before / after a line (the line is stripped before it is split)
+            for _ in range(rng.choice([1, 2])):
+                j = rng.randrange(len(ls))
+                ls[j] = rng.choice(['', ' ', '\t', '  ', '\x0c']) + ls[j] + rng.choice(['', ' ', '\t', ' \t', '\r'])
         out.append({'_d': d, 'content': '\n'.join(ls), 'sep': kw.get('sep', '\t'), 'outfmt': kw.get('outfmt'), 'ftype': kw.get('ftype'),
                     '_via': base['_via'], 'comments': (i % 3 == 0) or None})
     return out
@@ -980,14 +1010,48 @@ def spec_numbers(case, got):
     return None
 
 
+def freetext_cases():
+    """free-text columns holding the characters that separate or mark lines in the OTHER layouts: commas, blanks, '#', '--' and
+    a '# Fields:' look-alike inside a tab-separated title, tabs and blanks inside a comma-separated title, everything but a
+    line break inside the Infernal description; in the middle of the row and as its last column"""
+    out = []
+    txt_tab = ['Homo sapiens, chromosome 1; alt', 'a  b', '# Fields: x', 'x #1 -- y', "5'-3' (rev), 50%", 'query id, subject id', 'query,target']
+    txt_comma = ['a\tb', 'Homo sapiens chromosome 1', 'x #1 -- y', 'two  blanks\t tab', 'query\ttarget']
+    for d, style, colmode, col, txts in (('blast', '6', 'outfmt', 'stitle', txt_tab), ('blast', '7', 'header', 'salltitles', txt_tab),
+                                         ('blast', '10', 'outfmt', 'stitle', txt_comma), ('mmseqs', '0', 'outfmt', 'theader', txt_tab),
+                                         ('mmseqs', '4', 'header', 'qheader', txt_tab)):
+        ess = _essential(d)
+        for pos in ('mid', 'last', 'first'):
+            cols = ess[:2] + [col] + ess[2:] if pos == 'mid' else ess + [col] if pos == 'last' else [col] + ess
+            hits = []
+            for j, t in enumerate(txts):
+                if pos == 'first' and t.startswith('#'):
+                    continue                                   # a line that begins with '#' is a comment in every layout
+                h = hit_of(['minus', 'plus'][j % 2], k=j)
+                h['x'] = {col: t}
+                hits.append(h)
+            out.append({'_d': d, '_style': style, '_colmode': colmode, 'cols': cols, 'hits': hits, '_via': 'stringio'})
+    for style in ('1', '2', '3', '2old'):
+        hits = []
+        for j, t in enumerate(['a\tb', 'two  blanks', '# hash first', '-- dashes', 'x, y; z', 'tab\t\tand  blanks -', 'ruler #--- ---',
+                               'target name accession', '1 2 3 4 5 6 7 8 9 10 11 12 13 14 15 16 17 18 19 20 21 22 23 24 25 26 27 28 29 30']):
+            h = hit_of(['minus', 'plus'][j % 2], k=j)
+            h['desc'] = t
+            h['sstr'] = 'sign'
+            hits.append(h)
+        out.append({'_d': 'infernal', '_style': style, '_colmode': 'default', 'hits': hits, '_via': 'stringio'})
+        out.append({'_d': 'infernal', '_style': style, '_colmode': 'default', 'hits': hits, '_via': 'file', 'crlf': True, 'comments': True})
+    return out
+
+
 def gen_cases(rng, tier):
-    cases = directed_cases() + order_cases() + blank_cases() + encoding_cases() + typed_cases()
+    cases = directed_cases() + order_cases() + blank_cases() + encoding_cases() + typed_cases() + freetext_cases()
     cases += block_cases(rng, 1500 if tier == 'thorough' else 60)
-    cases += anytext_cases(rng, 2000 if tier == 'thorough' else 80)
+    cases += anytext_cases(rng, 3000 if tier == 'thorough' else 200)
     cases += concat_cases(rng, 300 if tier == 'thorough' else 12)
     cases += number_cases(rng, 6000 if tier == 'thorough' else 400)
-    cases += gen_hist(rng, 3000 if tier == 'thorough' else 240)
-    n = 20000 if tier == 'thorough' else 700
+    cases += gen_hist(rng, 3000 if tier == 'thorough' else 210)
+    n = 20000 if tier == 'thorough' else 560
     for _ in range(n):
         c = rand_case(rng)
         cases.append(c)
@@ -1561,10 +1625,16 @@ LEVEL_TEXT = ('Machine-checked Coq theorems about an executable model of read_ta
               'are neither "#" lines nor blank nor an MMseqs2 name row, in order, first error wins (C11_read_any_outfmt, C11_read_any_text, '
               'C11_read_infernal_any) - hence one feature per data line (C11_feature_count), comment/blank lines are irrelevant wherever '
               'they stand (C11_comments_irrelevant), the comments list of the model is the "#" lines in order (C11_comments_list), and two '
-              'texts one after the other read to the first result followed by the second (C11_read_concat); (7) float() on e-values and '
+              'texts one after the other read to the first result followed by the second (C11_read_concat), and any such text whose data '
+              'lines carry the hits H reads to spec(H) (C11_read_any_outfmt_hits, C11_read_infernal_any_hits); WITHOUT outfmt= the reader '
+              'of BLAST and MMseqs2 is, on any text, the fold any_features: a "# Fields:" line always replaces the columns in force '
+              '(C11_fields_line_resets: no block inherits columns from an earlier one), an MMseqs2 name row sets them only if none are in '
+              'force, every other line that is no comment is read with the columns in force, the defaults if none '
+              '(C11_read_any_discover, C11_any_features_block); (7) float() on e-values and '
               'scores: every text of the grammar [sign] digits [. digits] [(e|E) [sign] digits] with blanks around it is the number with '
               'exactly that mantissa and decimal exponent, and the words inf/infinity/nan in any case are read as such (C11_float_parse, '
-              'C11_float_words; the converse - whatever float() accepts is such a text - is tested, not proved); (8) no MMseqs2 column name '
+              'C11_float_words), and conversely whatever the modelled float() accepts is such a text or word, everything else is rejected and '
+              'stays a string (C11_float_sound, C11_float_rejects, C11_float_iff); (8) no MMseqs2 column name '
               'reads as an integer, so a row holding a coordinate - any rendered hit row - is never taken for the name row '
               '(C11_names_row_never_hit). The model is tied to sugar.read_fts by differential testing on rendered hit lists, a mutation '
               'stream, an any-text stream (line soups), multi-block files (several "# Fields:" lines with different selections, repeated '
@@ -1574,16 +1644,16 @@ LEVEL_TEXT = ('Machine-checked Coq theorems about an executable model of read_ta
               'oracle), concatenation histories and multi-read histories; all statements of the '
               'modelled functions are executed in the quick tier.')
 LEVEL_NOTE = ('Trusted: Coq kernel/vm_compute, tools/gens/c11.py (tables), the correspondence harness, CPython int()/float()/str methods '
-              '(the Gallina int()/float() are compared with CPython on every case and on the literal stream; float() is characterised as a '
-              'grammar by C11_float_parse / C11_float_words in the accepting direction only; that CPython\'s float() is that function, and '
-              'that it rejects everything else, is tested; the binary value is not modelled: float values are kept as exact decimal literals '
+              '(the Gallina int()/float() are compared with CPython on every case and on the literal stream; the Gallina float() is characterised as a '
+              'grammar in both directions by C11_float_parse / C11_float_words / C11_float_sound; that CPython\'s float() is that function '
+              'is tested (every typed token of every case, and the literal stream); the binary value is not modelled: float values are kept as exact decimal literals '
               '(mantissa, exponent) and the harness rounds them once with fractions.Fraction, DESIGN 5.3). int() and float() skip the C blanks, '
               'U+0085 and U+00A0 but not 0x1c-0x1f, which str.strip() does skip (found by the literal stream; modelled as is_space_num). Modelled rather than verified: core.py read_tabular and '
               '_headers_from_fmtstrings, the three reader wrappers, the comments= option. The domain is Latin-1 text; decoding the bytes of a file '
               '(encoding=, BOM) is CPython\'s and is only tested. Tested only (no theorem): that the comments= list is filled while reading (the theorem is about the model\'s list); '
               'MMseqs2 fmtmode 4 and BLAST outfmt 7 header discovery combined with '
-              'sep=None; several "# Fields:" blocks whose rows are read with sep=None; a last line without terminator in the rendered-file '
-              'theorems (the any-text theorems (6) cover it); the sniffers '
+              'sep=None in the rendered-file theorems (4)/(5) (the any-text theorems (6) cover every separator and a last line without '
+              'terminator); the Infernal lines BEFORE the ruler in the any-text theorems (they must be comment lines without "--"); the sniffers '
               'is_fts_* (property C03); everything between the file name and the text (main.py: archives, glob, stdin, detection). '
               'The declared-type table of the Coq model and the one of the Python oracle are two hand-written copies of the manuals; the '
               'regenerated _HEADER table is compared with the first by C11_declared_tables and with the second by the typed-column stream. '
